@@ -573,7 +573,43 @@ class SpawnExit(Contract):
                 ('C10:does-not-swallow-the-exception', is_none(v.result))]
 
 
+class SpawnStr(Contract):
+    """str(spawn), used to build the message of the EOF / TIMEOUT exceptions (C04: "never some other error"): total on
+    every state an expect-family call can leave behind (before is a string or None; after / match anything)."""
+    name = PTY + '.__str__'
+    props = ('C04',)
+    standin = False
+    only_in = 'str'
+    context = 'str'
+
+    def shape(self, b):
+        kind = b.choice('mode', ['b', 's'])
+        f = dict(command=b.sopt('command', lambda: b.str('command', 's')), args=b.any('args'), str_last_chars=b.int('str_last_chars'),
+                 _buffer=b.io('sbuf', kind), buffer_type=b.cls('BytesIO' if kind == 'b' else 'StringIO'),
+                 before=b.opt('before', lambda: b.str('before', kind)), after=b.any('after'), match=b.any('match'),
+                 match_index=b.sopt('match_index', lambda: b.int('match_index')), exitstatus=b.sopt('exitstatus', lambda: b.int('exitstatus')),
+                 flag_eof=b.bool('flag_eof'), pid=b.sopt('pid', lambda: b.int('pid')), child_fd=b.int('child_fd'), closed=b.bool('closed'),
+                 timeout=b.sopt('timeout', lambda: b.real('timeout')), delimiter=b.cls('EOF'), logfile=b.any('logfile'),
+                 logfile_read=b.any('logfile_read'), logfile_send=b.any('logfile_send'), maxread=b.int('maxread'),
+                 ignorecase=b.bool('ignorecase'), searchwindowsize=b.sopt('searchwindowsize', lambda: b.int('searchwindowsize')),
+                 delaybeforesend=b.sopt('delaybeforesend', lambda: b.real('delaybeforesend')), delayafterclose=b.real('delayafterclose'),
+                 delayafterterminate=b.real('delayafterterminate'))
+        if b.choice('ptyproc', ['present', 'absent']) == 'present':
+            f['ptyproc'] = b.obj('ptyproc', 'iface:ptyproc', sealed=False)
+        return dict(self=b.obj('self', PTY, sealed=True, **f))
+
+    def requires(self, v):
+        return [('buffer-at-end', eq(v.a.self._buffer.pos, length(v.a.self._buffer.content)))]
+
+    def exits(self, v):
+        return ()
+
+    def ensures(self, v):
+        return [('C04:describing-the-object-never-fails', v.raised is None)]
+
+
 def register(reg):
+    reg.add(SpawnStr)
     reg.add(SpawnExit)
     reg.add(SockClose)
     reg.add_iface('iface:socket', 'shutdown', SockShutdown)
